@@ -197,7 +197,7 @@ func (o *oracle) stepNestedColl(op, rop Op) string {
 		return ans("nil", e, nil, nil, 0, nil)
 	}
 	var ids []string
-	if id == "" && rop.has("gid") {
+	if (op.ID == "" || id == "") && rop.has("gid") {
 		found := false
 		for i := 0; i < 10 && !found; i++ {
 			cand := b64(o.read(6 + i))
